@@ -29,3 +29,42 @@ Theorem C08_invariant_velocity : forall (F : FieldOps) (L : FieldLaws F) (m : Me
   kmul F (mA F m a (cidx a c)) (u a c) = kmul F (mA F m a (pred (cidx a c))) (u a (cdn a c)) -> divrow F m u a c = k0 F.
 Proof. exact divrow_of_invariant_velocity. Qed.
 Print Assumptions C08_invariant_velocity.
+
+(* ---- axis relabelling of Cartesian grids (Theory/PermThy.v): for each of the six permutations p of (x, y, z) that maps active axes
+   to active axes, the stencils of the mesh with permuted axes, permuted coefficient components and permuted cell indices give in
+   the permuted cell what the original stencils give in the original cell; interior cells go to interior cells ---- *)
+From Coq Require Import ZArith.
+From PFV Require Import PermThy CorrLib Exec.
+Theorem C08_diffusion_permutes : forall (F : FieldOps) (L : FieldLaws F) (p : perm) (m : Mesh F),
+  cartesian F m -> perm_ok F p m -> forall (D : fvar F) (x : cvar F) c,
+  apply_stencil F (pmesh F p m) (diffAW F (pmesh F p m) (pfvar F p D)) (diffAP F (pmesh F p m) (pfvar F p D)) (diffAE F (pmesh F p m) (pfvar F p D))
+    (pcvar F p x) (pcell p c)
+  = apply_stencil F m (diffAW F m D) (diffAP F m D) (diffAE F m D) x c.
+Proof. exact diffusion_permutes. Qed.
+Theorem C08_central_permutes : forall (F : FieldOps) (L : FieldLaws F) (p : perm) (m : Mesh F),
+  cartesian F m -> perm_ok F p m -> forall (u : fvar F) (x : cvar F) c,
+  apply_stencil F (pmesh F p m) (cenAW F (pmesh F p m) (pfvar F p u)) (cenAP F (pmesh F p m) (pfvar F p u)) (cenAE F (pmesh F p m) (pfvar F p u))
+    (pcvar F p x) (pcell p c)
+  = apply_stencil F m (cenAW F m u) (cenAP F m u) (cenAE F m u) x c.
+Proof. exact central_permutes. Qed.
+Theorem C08_upwind_permutes : forall (F : FieldOps) (L : FieldLaws F) (p : perm) (m : Mesh F),
+  cartesian F m -> perm_ok F p m -> forall (u uup : fvar F) (x : cvar F) c,
+  apply_stencil F (pmesh F p m) (upwAW F (pmesh F p m) (pfvar F p u) (pfvar F p uup)) (upwAP F (pmesh F p m) (pfvar F p u) (pfvar F p uup))
+    (upwAE F (pmesh F p m) (pfvar F p u) (pfvar F p uup)) (pcvar F p x) (pcell p c)
+  = apply_stencil F m (upwAW F m u uup) (upwAP F m u uup) (upwAE F m u uup) x c.
+Proof. exact upwind_permutes. Qed.
+Theorem C08_permuted_interior : forall (F : FieldOps) (p : perm) (m : Mesh F), perm_ok F p m -> forall c,
+  interior F (pmesh F p m) (pcell p c) = true <-> interior F m c = true.
+Proof. exact perm_interior. Qed.
+Print Assumptions C08_diffusion_permutes.
+Print Assumptions C08_central_permutes.
+Print Assumptions C08_upwind_permutes.
+Print Assumptions C08_permuted_interior.
+(* non-vacuity: a 2 x 1 x 3 Grid3D and the cyclic permutation; a Grid2D and the swap of x and y *)
+Example C08_perm_nonvacuous :
+  let m3 := Exec.mk_mesh G3 (CorrLib.qc 0%Z 1%positive :: CorrLib.qc 1%Z 1%positive :: CorrLib.qc 3%Z 1%positive :: nil) (CorrLib.qc 0%Z 1%positive :: CorrLib.qc 1%Z 2%positive :: nil)
+                         (CorrLib.qc 0%Z 1%positive :: CorrLib.qc 1%Z 1%positive :: CorrLib.qc 2%Z 1%positive :: CorrLib.qc 4%Z 1%positive :: nil) (CorrLib.qc 355%Z 113%positive) nil nil in
+  let m2 := Exec.mk_mesh G2 (CorrLib.qc 0%Z 1%positive :: CorrLib.qc 1%Z 1%positive :: CorrLib.qc 3%Z 1%positive :: nil) (CorrLib.qc 0%Z 1%positive :: CorrLib.qc 1%Z 2%positive :: nil) nil (CorrLib.qc 355%Z 113%positive) nil nil in
+  cartesian QcOps m3 /\ perm_ok QcOps P_c1 m3 /\ cartesian QcOps m2 /\ perm_ok QcOps P_xy m2
+  /\ mN QcOps (pmesh QcOps P_c1 m3) AX = 1%nat /\ mN QcOps m3 AX = 2%nat.
+Proof. cbv zeta. repeat split; try exact I; intros a; destruct a; reflexivity. Qed.
